@@ -60,6 +60,8 @@ type simNode struct {
 	applied uint64
 	down    bool
 	removed bool         // Stage D: applied its own removal (raftexample shuts the node down)
+	pendRd  *raft.Ready  // profile deferAdv: a Ready that was handled (persisted, messages collected, entries applied) and not yet Advance()d
+	pendAck bool         // ... whose Advance will step the leader's self-acknowledgement
 	conf    pb.ConfState // Stage D: result of the last ApplyConfChange (goes into snapshots)
 	// history for the safety predicates
 	hTerm, hCommit, hVoteTerm, hVote uint64
@@ -80,6 +82,10 @@ type profile struct {
 	applyPaged                                                        bool // Config.MaxCommittedSizePerReady = 1 byte: committed entries are handed to the application one per Ready (replication itself unpaged)
 	batch                                                             bool // Stage D only: every membership proposal is one MsgProp carrying 2-3 conf-change entries
 	grow                                                              bool // Stage D only: the cluster starts with node 1 as its only voter and grows by AddNode (the usual way a cluster is built)
+	deferAdv                                                          bool // lock-step profiles: with probability 1/3 a handled Ready is NOT advanced at once - the next input of that node (message, tick,
+	// proposal, campaign) is stepped first and Advance follows it, as etcd's node.run does between `readyc <- rd` and `<-advancec` (the application is
+	// still persisting while the node goroutine keeps receiving).  Added after the seeded change C15-unstable-inplace-truncate: a conflicting append that
+	// arrives in that window rewrote the outstanding Ready's entries in place.
 	prevote                                                           bool // Config.PreVote (+CheckQuorum): library features raftexample leaves off; outside the model, safety predicates only
 }
 
@@ -96,6 +102,8 @@ var profiles = []profile{
 	{name: "member-paged", wTick: 15, wDeliver: 70, wDrop: 1, wPropose: 12, wCampaign: 2, wCrash: 4, wCompact: 0, pDup: 0.05, applyPaged: true, member: 6, lazy: true, grow: true},
 	{name: "member-paged-partition", wTick: 18, wDeliver: 62, wDrop: 2, wPropose: 12, wCampaign: 3, wCrash: 4, wCompact: 0, pDup: 0.1, partition: 40, pHeal: 0.4, applyPaged: true, member: 6, lazy: true, grow: true},
 	{name: "member-batch-partition", wTick: 22, wDeliver: 50, wDrop: 4, wPropose: 8, wCampaign: 6, wCrash: 2, wCompact: 1, pDup: 0.1, partition: 25, pHeal: 0.35, member: 12, batch: true},
+	{name: "defer-churn", wTick: 20, wDeliver: 48, wDrop: 5, wPropose: 12, wCampaign: 8, wCrash: 3, wCompact: 2, pDup: 0.15, deferAdv: true},
+	{name: "defer-partition", wTick: 24, wDeliver: 50, wDrop: 3, wPropose: 14, wCampaign: 4, wCrash: 2, wCompact: 2, pDup: 0.1, partition: 30, pHeal: 0.4, deferAdv: true},
 	{name: "reorder", wTick: 12, wDeliver: 40, wDrop: 2, wPropose: 10, wCampaign: 5, wCrash: 2, wCompact: 2, pDup: 0.5},
 	{name: "prevote-reorder", wTick: 14, wDeliver: 38, wDrop: 3, wPropose: 8, wCampaign: 10, wCrash: 2, wCompact: 1, pDup: 0.5, prevote: true},
 	{name: "prevote-partition", wTick: 25, wDeliver: 45, wDrop: 4, wPropose: 8, wCampaign: 8, wCrash: 2, wCompact: 1, pDup: 0.3, partition: 30, pHeal: 0.4, prevote: true},
@@ -429,7 +437,16 @@ func (s *sim) drain(nd *simNode) (out []pb.Message, selfAcks int) {
 			}
 		}
 		// `advance` steps MsgAppResp{From: self} when entries were appended and r.id == r.lead
-		if len(rd.Entries) > 0 && nd.rn.BasicStatus().Lead == nd.id {
+		ack := len(rd.Entries) > 0 && nd.rn.BasicStatus().Lead == nd.id
+		// only a follower's Ready is held back: the model's `selfAck` acknowledges the leader's whole log, the real Advance of an OLDER Ready only that
+		// Ready's last index (a follower cannot become leader within the one input that precedes the deferred Advance unless it is alone); a Ready that
+		// carries a snapshot is advanced at once: until then etcd refuses to campaign (hasPendingSnapshot), a state the model does not have
+		if s.prof.deferAdv && s.n > 1 && nd.rn.BasicStatus().RaftState == raft.StateFollower && raft.IsEmptySnap(rd.Snapshot) && (len(rd.Entries) >= 2 || s.rng.Intn(3) == 0) {
+			rdc := rd
+			nd.pendRd, nd.pendAck = &rdc, ack
+			break
+		}
+		if ack {
 			selfAcks++
 		}
 		nd.rn.Advance(rd)
@@ -493,6 +510,17 @@ func (s *sim) event(kind string, i int, call func() []string) {
 			}
 		}()
 		inputs := call()
+		if nd.pendRd != nil && nd.rn != nil && kind != "restart" {
+			// the Ready handed out before this input is advanced only now
+			rd := nd.pendRd
+			ack := len(rd.Entries) > 0 && nd.rn.BasicStatus().Lead == nd.id
+			nd.pendRd, nd.pendAck = nil, false
+			nd.rn.Advance(*rd)
+			s.stats["deferred-advance"]++
+			if ack {
+				inputs = append(inputs, "selfAck")
+			}
+		}
 		out, acks := s.drain(nd)
 		for k := 0; k < acks; k++ {
 			inputs = append(inputs, "selfAck")
@@ -722,7 +750,19 @@ func (s *sim) doDeliver() bool {
 	}
 	// mostly recent messages (progress), sometimes any (reordering, long delay)
 	var k int
-	if s.rng.Float64() < 0.6 {
+	var hot []int
+	if s.prof.deferAdv {
+		// an append for a node that is still holding an un-advanced Ready: the window the profile exists for
+		for _, c := range cand {
+			if m := s.pool[c].m; m.Type == pb.MsgApp && len(m.Entries) > 0 && s.nodes[m.To-1].pendRd != nil {
+				hot = append(hot, c)
+			}
+		}
+	}
+	if len(hot) > 0 && s.rng.Float64() < 0.7 {
+		k = hot[s.rng.Intn(len(hot))]
+		s.stats["append-into-pending-ready"]++
+	} else if s.rng.Float64() < 0.6 {
 		lo := len(cand) - 6
 		if lo < 0 {
 			lo = 0
@@ -762,6 +802,7 @@ func (s *sim) doRestart(i int) {
 	s.event("restart", i, func() []string {
 		nd.rn = s.newRawNode(nd) // term, vote, commit from the HardState; log from the storage; follower, no leader
 		nd.down = false
+		nd.pendRd, nd.pendAck = nil, false
 		if s.prof.lazy {
 			// a commit index that was only in memory (its Ready still pending when the node crashed) is legitimately lost
 			if hs, _, err := nd.ms.InitialState(); err == nil && hs.Commit < nd.hCommit {
